@@ -648,6 +648,10 @@ pub fn format_code(
 		ConvTypeV::Char => match value.clone() {
 			Val::Num(n) => {
 				let n = n.get();
+				// `as u32` saturates: a negative number would silently become U+0000
+				if n < 0.0 || n > f64::from(u32::MAX) {
+					bail!("%c expected a unicode codepoint, got {n}");
+				}
 				tmp_out.push(
 					std::char::from_u32(n as u32)
 						.ok_or_else(|| InvalidUnicodeCodepointGot(n as u32))?,
